@@ -235,6 +235,55 @@ def _settle(loop, n=3000):
             break
 
 
+# ------------------------------------------------------------------------------------------
+# a later pairing with the same peer replaces what an earlier one stored
+class _StoreDevice:
+    """what Device.get_long_term_key needs: a connection table, no live SMP session, a key store"""
+
+    def __init__(self, role):
+        self.keystore = MemoryKeyStore()
+        self._c = type('Conn', (), {'peer_address': hci.Address('F5:F4:F3:F2:F1:F0'), 'role': role})()
+        self.smp_manager = type('M', (), {'get_long_term_key': staticmethod(lambda connection, rand, ediv: None)})()
+
+    def lookup_connection(self, handle):
+        return self._c
+
+
+def _keys_of(sc, v, auth):
+    value = bytes([v for _ in range(16)])
+    if sc:
+        return PairingKeys(ltk=PairingKeys.Key(value=value, authenticated=auth))
+    return PairingKeys(ltk_central=PairingKeys.Key(value=value, authenticated=auth, ediv=1, rand=bytes(8)),
+                       ltk_peripheral=PairingKeys.Key(value=value, authenticated=auth, ediv=1, rand=bytes(8)))
+
+
+@harness(pre=['0 <= v1 <= 255 and 0 <= v2 <= 255 and v1 != v2 and 0 <= role <= 1'], family='key-roles', twin=True, timeout=(90, 300),
+         kernels=K + ('bumble.keys.MemoryKeyStore.update', 'bumble.keys.MemoryKeyStore.get', 'bumble.device.Device.get_long_term_key'),
+         bounds='two successive pairings with the same peer store their keys in a MemoryKeyStore (first / second pairing Secure Connections or legacy, authenticated or not, key bytes symbolic): the key the real Device.get_long_term_key hands the controller on the next connection (either role) is the SECOND pairing\'s key, and the stored key it came from carries the second pairing\'s authenticated flag (nothing of the earlier bond survives a re-pairing)')
+def repairing_replaces_the_stored_keys(sc1: bool, sc2: bool, a1: bool, a2: bool, v1: int, v2: int, role: int) -> bool:
+    role = C(role, 0, 1)
+    with detloop.running() as loop:
+        d = _StoreDevice(hci.Role.CENTRAL if role == 0 else hci.Role.PERIPHERAL)
+        name = str(d._c.peer_address)
+        want = bytes([v2 for _ in range(16)])
+
+        async def run():
+            await d.keystore.update(name, _keys_of(sc1, v1, a1))
+            await d.keystore.update(name, _keys_of(sc2, v2, a2))
+            got = await bdev.Device.get_long_term_key(d, 1, bytes(8), 1)
+            stored = await d.keystore.get(name)
+            return got, stored
+        t = loop.create_task(run())
+        _settle(loop, 50)
+        if not t.done() or t.exception() is not None:
+            return False
+        got, stored = t.result()
+        if got != want:
+            return False
+        used = stored.ltk or (stored.ltk_central if role == 0 else stored.ltk_peripheral)
+        return used is not None and used.value == want and bool(used.authenticated) == bool(a2)
+
+
 _KD = PairingDelegate.KeyDistribution
 _KDS = [None, (_KD.DISTRIBUTE_ENCRYPTION_KEY, _KD.DISTRIBUTE_ENCRYPTION_KEY | _KD.DISTRIBUTE_IDENTITY_KEY),
         (_KD.DISTRIBUTE_ENCRYPTION_KEY | _KD.DISTRIBUTE_IDENTITY_KEY, _KD.DISTRIBUTE_ENCRYPTION_KEY),
